@@ -12,6 +12,7 @@ import (
 	"math/rand"
 	"os"
 	"strings"
+	"time"
 )
 
 type stream struct {
@@ -77,13 +78,33 @@ func main() {
 	}
 }
 
-func safeRun(st *stream, payload string) (out string) {
-	defer func() {
-		if r := recover(); r != nil {
-			out = "PANIC"
-		}
+var timeouts int
+
+// watchdog: generous at first, short once calls have started to hang (a deadlocking change hangs many cases)
+func caseWatchdog() time.Duration {
+	if timeouts >= 3 {
+		return 150 * time.Millisecond
+	}
+	return 5 * time.Second
+}
+
+func safeRun(st *stream, payload string) string {
+	done := make(chan string, 1)
+	go func() {
+		defer func() {
+			if r := recover(); r != nil {
+				done <- "PANIC"
+			}
+		}()
+		done <- st.run(payload)
 	}()
-	return st.run(payload)
+	select {
+	case out := <-done:
+		return out
+	case <-time.After(caseWatchdog()):
+		timeouts++
+		return "TIMEOUT" // a call that never returns (deadlock); the goroutine is abandoned
+	}
 }
 
 // guard runs f and reports a panic as the token PANIC
